@@ -85,7 +85,7 @@ impl CodeGenerator {
     /// random variables drawn from the normal distribution with given mean and standard
     /// deviation.
     pub fn random_float_vector(size: i32, mean: f32, stddev: f32) -> Option<FloatVector> {
-        if size < 0 || stddev < 0.0 {
+        if size < 0 || stddev < 0.0 || !stddev.is_finite() {
             None
         } else {
             let mut float_vector = Vec::with_capacity(size as usize);
